@@ -102,10 +102,74 @@ pub fn tree_spec(depth: u32, allow_huge: bool) -> impl Strategy<Value = TreeSpec
 	})
 }
 
-pub fn multi_change(nroots: u16, depth: u32, huge: bool, rc: bool) -> impl Strategy<Value = Change> {
-	prop_oneof![
-		4 => (0..nroots, tree_spec(depth, huge)).prop_map(|(k, t)| Change::InsertTree(k, t)),
-		if rc { 2 } else { 0 } => any::<u16>().prop_map(Change::RefTree),
-		3 => any::<u16>().prop_map(Change::DerefTree),
-	]
+pub fn multi_change(nroots: u16, depth: u32, huge: bool, rc: bool) -> BoxedStrategy<Change> {
+	let ins = (0..nroots, tree_spec(depth, huge)).prop_map(|(k, t)| Change::InsertTree(k, t));
+	if rc {
+		prop_oneof![4 => ins, 2 => any::<u16>().prop_map(Change::RefTree), 3 => any::<u16>().prop_map(Change::DerefTree)].boxed()
+	} else {
+		prop_oneof![4 => ins, 3 => any::<u16>().prop_map(Change::DerefTree)].boxed()
+	}
+}
+
+/// Column configurations of every kind for crash / structural scenarios.
+pub fn any_col(multi: bool) -> impl Strategy<Value = ColCfg> {
+	let base = prop_oneof![
+		4 => hash_col(),
+		2 => Just(ColCfg::hash_rc()),
+		3 => (0u8..3).prop_map(|c| { let mut b = ColCfg::btree(); b.compression = c; b }),
+		1 => Just(ColCfg::btree_rc()),
+	];
+	if multi {
+		prop_oneof![
+			6 => base,
+			2 => Just(ColCfg::multi()),
+			1 => Just(ColCfg { rc: true, preimage: true, ..ColCfg::multi() }),
+			1 => Just(ColCfg { direct: true, ..ColCfg::multi() }),
+		]
+		.boxed()
+	} else {
+		base.boxed()
+	}
+}
+
+/// One item for column `col` of configuration `c`.
+pub fn item_for(col: u8, c: &ColCfg, nkeys: u16, big: u32, tree_depth: u32) -> BoxedStrategy<Item> {
+	match c.kind {
+		Kind::Multi => {
+			let rc = c.rc;
+			let ao = c.append_only;
+			let ins = (0..nkeys, tree_spec(tree_depth, false)).prop_map(|(k, t)| Change::InsertTree(k, t));
+			let s: BoxedStrategy<Change> = if ao {
+				ins.boxed()
+			} else if rc {
+				prop_oneof![4 => ins, 2 => any::<u16>().prop_map(Change::RefTree), 3 => any::<u16>().prop_map(Change::DerefTree)].boxed()
+			} else {
+				prop_oneof![4 => ins, 3 => any::<u16>().prop_map(Change::DerefTree)].boxed()
+			};
+			s.prop_map(move |ch| Item { col, ch }).boxed()
+		},
+		_ if c.rc => rc_change(nkeys).prop_map(move |ch| Item { col, ch }).boxed(),
+		_ => map_change(nkeys, big).prop_map(move |ch| Item { col, ch }).boxed(),
+	}
+}
+
+pub fn mixed_items(cfg: &DbCfg, nkeys: u16, big: u32, max_items: usize, tree_depth: u32) -> BoxedStrategy<Vec<Item>> {
+	let per_col: Vec<BoxedStrategy<Item>> =
+		cfg.cols.iter().enumerate().map(|(i, c)| item_for(i as u8, c, nkeys, big, tree_depth)).collect();
+	let any_item = proptest::strategy::Union::new(per_col);
+	proptest::collection::vec(any_item, 1..=max_items)
+		.prop_map(|mut items| {
+			// at most one tree insertion per column and transaction keeps transactions small
+			let mut seen = std::collections::BTreeSet::new();
+			items.retain(|it| match it.ch {
+				Change::InsertTree(..) => seen.insert(it.col),
+				_ => true,
+			});
+			items
+		})
+		.boxed()
+}
+
+pub fn mixed_cfg(max_cols: usize, multi: bool) -> impl Strategy<Value = DbCfg> {
+	proptest::collection::vec(any_col(multi), 1..=max_cols).prop_map(DbCfg::new)
 }
